@@ -98,7 +98,8 @@ namespace
     Harness             *H = nullptr;
     thread_local Action *tl_action = nullptr;
 
-    constexpr auto kDeadline = std::chrono::seconds(12);
+    constexpr auto        kDeadline  = std::chrono::seconds(12);
+    constexpr std::size_t kMaxEvents = 60000;
 
     // wait on H->cv until pred, with the watchdog; returns false when the watchdog fired
     template <typename Pred>
@@ -143,12 +144,34 @@ namespace
         H->cv.notify_all();
     }
 
+    // free mode: append one line (any thread)
+    void log_free(Line l)
+    {
+        std::lock_guard lk{H->m};
+        if (H->abort) { return; }
+        H->log.push_back(std::move(l));
+        if (H->log.size() > kMaxEvents)
+        {
+            H->abort = true;
+            H->log.push_back({99});
+            H->cv.notify_all();
+        }
+    }
+
     // A counted event of the loop thread (hook mode).  Logs it, then performs what the scenario places here.
     void loop_event(Line l, bool placeable = true, bool in_wait = false)
     {
         std::unique_lock lk{H->m};
+        if (H->abort) { return; }
         const std::int64_t code = l[0];
         H->log.push_back(std::move(l));
+        if (!H->abort && H->log.size() > kMaxEvents)
+        {
+            // a run-away loop (e.g. cycles repeating at end_time): stop recording, let the run be ended
+            H->abort = true;
+            H->log.push_back({99});
+            H->cv.notify_all();
+        }
         if (!placeable || H->abort) { return; }
         const std::int64_t n = ++H->seen[code];
         // notifies that were held back until this event
@@ -349,7 +372,7 @@ namespace
                     }
                 }
                 if (H->hooks) { loop_event(std::move(l), false); }
-                else { std::lock_guard lk{H->m}; H->log.push_back(std::move(l)); }
+                else { log_free(std::move(l)); }
             }
             else if (op.kind == 5)
             {
@@ -382,7 +405,7 @@ namespace
                 H->cv.notify_all();
             }
             if (H->hooks) { loop_event({10}); }
-            else { std::lock_guard lk{H->m}; H->log.push_back({10}); }
+            else { log_free({10}); }
         }
         void on_before_graph_evaluation(const GraphView &g) override
         {
@@ -394,8 +417,7 @@ namespace
             else
             {
                 const std::int64_t w = now_logged();
-                std::lock_guard    lk{H->m};
-                H->log.push_back({16, us(g.evaluation_time()) - H->offset, w});
+                log_free({16, us(g.evaluation_time()) - H->offset, w});
             }
         }
         void on_after_graph_evaluation(const GraphView &) override
@@ -404,8 +426,7 @@ namespace
             else
             {
                 const std::int64_t w = now_logged();
-                std::lock_guard    lk{H->m};
-                H->log.push_back({20, w});
+                log_free({20, w});
             }
             std::lock_guard lk{H->m};
             H->in_node_code = false;
@@ -473,7 +494,7 @@ namespace
             NodeCallbacks cb;
             cb.evaluate = [](const NodeView &, DateTime) {
                 if (H->hooks) { loop_event({17}); }
-                else { std::lock_guard lk{H->m}; H->log.push_back({17}); }
+                else { log_free({17}); }
             };
             gb.add_node(NodeBuilder::native(std::move(schema), std::move(cb)));
         }
@@ -488,7 +509,7 @@ namespace
             cb.evaluate = [i](const NodeView &v, DateTime t) {
                 const std::int64_t k = H->runs[(std::size_t)i]++;
                 if (H->hooks) { loop_event({18, i, k}); }
-                else { std::lock_guard lk{H->m}; H->log.push_back({18, i, k}); }
+                else { log_free({18, i, k}); }
                 run_ops(i, v, t, k);
             };
             gb.add_node(NodeBuilder::native(std::move(schema), std::move(cb)));
@@ -553,11 +574,12 @@ namespace
             });
             {
                 std::unique_lock lk{h.m};
-                if (!h.cv.wait_for(lk, std::chrono::seconds(40), [&] { return h.run_done; }))
+                h.cv.wait_for(lk, std::chrono::seconds(40), [&] { return h.run_done || h.abort; });
+                if (!h.run_done)
                 {
                     // the loop is stuck: give up on it
+                    if (!h.abort) { h.log.push_back({99}); }
                     h.abort = true;
-                    h.log.push_back({99});
                     h.cv.notify_all();
                     lk.unlock();
                     view.request_stop();
